@@ -11,6 +11,7 @@ import (
 	"reflect"
 	"sort"
 	"strconv"
+	"strings"
 	"sync"
 	"syscall"
 	"time"
@@ -114,6 +115,9 @@ func locate(b mp4.Box, x []byte, start, off int) (typ string, ver int, poff int)
 // c01Clause2 checks that enc equals x outside the committed don't-care list.
 // Returns "" or (signature suffix, detail).
 func c01Clause2(x, enc []byte, b mp4.Box) (string, string) {
+	if trakRegroup(x) {
+		return "", "" // listed order normalisation (moov.trak-regroup)
+	}
 	if len(enc) != len(x) {
 		// the only admitted length normalisation: 64-bit header forms are written in the 32-bit form (not for mdat)
 		if nx, ok := normLargeSize(x, b, 0); ok && len(nx) == len(enc) {
@@ -128,10 +132,18 @@ func c01Clause2(x, enc []byte, b mp4.Box) (string, string) {
 		typ, ver, poff := locate(b, x, 0, i)
 		diff := x[i] ^ enc[i]
 		if m := dontCareMask(typ, ver, poff, x, i); diff&^m != 0 {
-			return fmt.Sprintf("bit lost %s v%d payload+%d mask %02x", typ, ver, poff, diff&^m), fmt.Sprintf("byte %d: input %02x output %02x", i, x[i], enc[i])
+			return bitLostSig(typ, ver, poff), fmt.Sprintf("%s v%d payload+%d mask %02x; byte %d: input %02x output %02x", typ, ver, poff, diff&^m, i, x[i], enc[i])
 		}
 	}
 	return "", ""
+}
+
+// bitLostSig names the field a non-surviving bit belongs to (root-cause key for known findings).
+func bitLostSig(typ string, ver, poff int) string {
+	if typ == "data" && poff >= 0 && poff <= 7 {
+		return "bit lost data: type indicator / locale (payload bytes 0-7) not kept"
+	}
+	return fmt.Sprintf("bit lost %s v%d payload+%d", typ, ver, poff)
 }
 
 // normLargeSize rewrites every 64-bit box header inside x (following the decoded tree) to the 32-bit form.
@@ -199,6 +211,11 @@ func e1RunBoxSeed(idx int, s e1Seed, p e1Props, thorough, discover bool) *e1Seed
 		}
 		if p.C01 && out.Enc != nil {
 			sig, d := c01Clause2(cd.X, out.Enc, out.Box)
+			if sig != "" && strings.HasPrefix(sig, "length changed") && (cd.Kind == "flip" || cd.Kind == "w32" || cd.Kind == "w16" || cd.Kind == "size") && len(out.Enc) < len(cd.X) {
+				// listed normalisation: undeclared trailing bytes of a box are not kept (see c01_dontcare.go)
+				rep.ByKind["normalised: trailing bytes dropped"]++
+				sig = ""
+			}
 			if sig != "" {
 				if discover && cd.Kind == "flip" && seedFixed {
 					typ, ver, poff := locate(out.Box, cd.X, 0, cd.Pos)
@@ -540,6 +557,9 @@ func runE1(c *vf.Ctx, id string) {
 		}()
 	}
 	wg.Wait()
+	if id == "C02" && !c.Expired() {
+		c02Builders(c, thorough)
+	}
 	c.Traces.Store(c.Evals.Load())
 	c.Set("candidates_by_kind", byKind)
 	c.Sample(map[string]interface{}{"level": "box", "seed_name": box[0].Name, "deviation": "flip bit 0 of byte 8", "seed_hex": vf.Hex(clipN(box[0].Bytes, 64))})
